@@ -171,7 +171,134 @@ def parse_errors(out, gen_lines, fn_first, fn_last):
     return errs
 
 
+def _load(name):
+    p = os.path.join(VERIF, "verus", name + ".py")
+    spec = importlib.util.spec_from_file_location(name, p)
+    m = importlib.util.module_from_spec(spec)
+    spec.loader.exec_module(m)
+    return m
+
+
+def extract_traversal(scratch):
+    """Unit `bvh_traversal`: enum BVHNode, struct PreorderIter and fn next (of `impl Iterator for PreorderIter`) sliced
+    verbatim out of bvh.rs; see verus/traversal_vspec.py for what is added and what is dropped."""
+    vs = _load("traversal_vspec")
+    src = open(scratch.file("bemodel/src/energy/raytracing/bvh.rs")).read()
+    enum = _slice_item(src, r"^pub enum BVHNode<T> \{", "enum BVHNode")
+    struct = _slice_item(src, r"^pub struct PreorderIter<'a, T> \{", "struct PreorderIter")
+    sig_rx = r"^    fn next\(&mut self\) -> Option<Self::Item> \{"
+    fn = _slice_item(src, sig_rx, "fn next")
+    lines = fn.split("\n")
+    out = ["    fn next(&mut self) -> (res: Option<&'a BVHNode<T>>)" + MARK + "[sig]", "        ensures" + MARK]
+    for lab, cl in vs.ENSURES:
+        cls = cl.split("\n")
+        for i, l in enumerate(cls):
+            out.append("            " + l.strip() + ("," if i == len(cls) - 1 else "") + MARK + f"[{lab}]")
+    out.append("    {" + MARK + "[open]")
+    body = lines[1:]
+    before = {}
+    for rx, where, text in vs.INSERTS:
+        hits = [i for i, l in enumerate(body) if re.search(rx, l)]
+        if len(hits) != 1:
+            raise Undecided(f"lost anchor: verus insert /{rx}/ matched {len(hits)} lines in PreorderIter::next")
+        before.setdefault(hits[0], []).extend(text.split("\n"))
+    wh = [i for i, l in enumerate(body) if re.search(vs.WHILE_ANCHOR, l)]
+    if len(wh) != 1:
+        raise Undecided(f"lost anchor: while-let header of PreorderIter::next matched {len(wh)} times")
+    for i, l in enumerate(body):
+        ind = re.match(r"\s*", l).group(0)
+        for t in before.get(i, []):
+            m = re.search(r"// (C\d\d[\w.]*)\s*$", t)
+            tag = f"[{m.group(1)}]" if m else ""
+            out.append(ind + (t[:m.start()].rstrip() if m else t) + MARK + tag)
+        if i == wh[0]:
+            out.append(l.rstrip()[:-1].rstrip() + MARK + "[while]")
+            out.append(ind + "    invariant" + MARK)
+            for lab, cl in vs.LOOP_INVARIANTS:
+                out.append(ind + f"        {cl}," + MARK + f"[{lab}]")
+            out.append(ind + f"    ensures {vs.LOOP_ENSURES[1]}," + MARK + f"[{vs.LOOP_ENSURES[0]}]")
+            out.append(ind + f"    decreases {vs.LOOP_DECREASES[1]}," + MARK + f"[{vs.LOOP_DECREASES[0]}]")
+            out.append(ind + "{" + MARK + "[open]")
+        else:
+            out.append(l)
+    gen_fn = "\n".join(out)
+    # ---- verbatim check ----
+    kept = []
+    for l in gen_fn.split("\n"):
+        if MARK in l:
+            tag = l[l.index(MARK) + len(MARK):]
+            if tag.startswith("[sig]"):
+                kept.append("    fn next(&mut self) -> Option<Self::Item> {")
+            elif tag.startswith("[while]"):
+                kept.append(l[:l.index(MARK)] + " {")
+            continue
+        kept.append(l)
+    if _norm("\n".join(kept)) != _norm(fn):
+        raise Undecided("verus extraction: verbatim check failed for PreorderIter::next")
+
+    def strip_derive(item):
+        return "\n".join(l for l in item.split("\n") if not l.strip().startswith("#[derive"))
+
+    text = (vs.HEADER + "\n" + strip_derive(enum) + "\n\n" + strip_derive(struct) + "\n" + vs.GHOST
+            + "\nimpl<'a, T> PreorderIter<'a, T> {\n" + gen_fn + "\n}\n\n} // verus!\nfn main() {}\n")
+    return text, vs
+
+
+def run_traversal(scratch, ob, tier, log):
+    text, vs = extract_traversal(scratch)
+    path = os.path.join(scratch.base, "bvh_traversal.rs")
+    with open(path, "w") as f:
+        f.write(text)
+    gen_lines = text.split("\n")
+    cmd = ["verus", path, "--multiple-errors", "20", "--rlimit", "30", "--time", "--triggers-mode", "silent"]
+    log("verus: " + " ".join(cmd))
+    rc, out, secs, to = run(cmd, cwd=scratch.base, timeout=600)
+    with open(os.path.join(scratch.base, "bvh_traversal.verus.log"), "w") as f:
+        f.write(out)
+    m = re.search(r"verification results:: (\d+) verified, (\d+) errors", out)
+    if to or not m:
+        raise Undecided("verus produced no result for the traversal unit (timeout=%s)\n%s" % (to, out[-1500:]))
+    verified, nerr = int(m.group(1)), int(m.group(2))
+    errs = parse_errors(out, gen_lines, 0, 0)
+    labels = [lab for lab, _ in vs.ENSURES] + [vs.LOOP_ENSURES[0], vs.LOOP_DECREASES[0], "C13.traversal.inv", "C13.traversal.children_pushed", "C13.traversal.no_panic"]
+    failed, undecided = {}, []
+    for e in errs:
+        msg = e["msg"]
+        if "rlimit" in msg.lower() or "resource limit" in msg.lower() or "timed out" in msg.lower():
+            undecided.append(msg)
+            continue
+        lab = _label_for(gen_lines, e["lines"][1:] + e["lines"][:1])
+        if "decreases not satisfied" in msg:
+            lab = vs.LOOP_DECREASES[0]
+        elif "precondition not satisfied" in msg or "arithmetic underflow/overflow" in msg:
+            lab = "C13.traversal.no_panic"
+        elif lab is None:
+            lab = "C13.traversal.proof"
+        src_lines = [gen_lines[l - 1].split(MARK)[0].strip() for l in e["lines"][:3] if 1 <= l <= len(gen_lines)]
+        failed.setdefault(lab, []).append(f"{msg}: {' <- '.join(src_lines)}")
+    results = []
+    for lab in labels + (["C13.traversal.proof"] if "C13.traversal.proof" in failed else []):
+        rec = {"obligation": ob["name"], "clause": lab, "backend": "verus", "kind": "deductive", "bound": None,
+               "function": "PreorderIter::next (verbatim extraction; AABB::intersects and BVHNode::aabb by contract)",
+               "secs": round(secs, 2), "solver_s": round(secs, 2), "checks": verified}
+        if lab in failed:
+            rec["status"] = "failed"
+            rec["failures"] = [{"clause": lab, "detail": "; ".join(failed[lab])[:600]}]
+        elif undecided:
+            rec["status"] = "undecided"
+            rec["detail"] = "; ".join(undecided)[:300]
+        else:
+            rec["status"] = "success"
+        results.append(rec)
+    if nerr > 0 and not failed and not undecided:
+        raise Undecided("verus reported errors that could not be attributed:\n" + out[-1500:])
+    log(f"verus bvh_traversal: {verified} functions verified, {nerr} errors, {secs:.1f}s; failed obligations: {sorted(failed)}")
+    return results
+
+
 def run_unit(scratch, ob, tier, log):
+    if ob["name"] == "bvh_traversal":
+        return run_traversal(scratch, ob, tier, log)
     if ob["name"] != "bvh_builder":
         raise Undecided("unknown verus unit " + ob["name"])
     text, fn = extract_bvh(scratch)
